@@ -24,6 +24,8 @@ package xml
 
 //@ func Lexer.shiftDOCTYPEText
 //@   preserves[S] scanInv(l)
+// the internal subset: an unquoted '[' opens it, the next unquoted ']' closes it (no nesting), nothing else changes that
+//@   loop 1 transition[F,C11] @bracket-flag: inBrackets <==> ite(!prev(inString) && prev(l.r.buf[l.r.pos]) == '[', true, ite(!prev(inString) && prev(l.r.buf[l.r.pos]) == ']', false, prev(inBrackets)))
 //@   ensures[F,C11] @not-in-literal: l.r.buf[l.r.pos] != 0 ==> l.r.pos > old(l.r.pos) && l.r.buf[l.r.pos-1] == '>' && cnt(l.r.buf, '"', old(l.r.pos), l.r.pos-1) % 2 == 0
 //@   loop 1 invariant[F] inString <==> (cnt(l.r.buf, '"', old(l.r.pos), l.r.pos) % 2 == 1)
 //@   ensures[F,C11] @no-nul: forall(k, old(l.r.pos), l.r.pos, l.r.buf[k] != 0)
